@@ -57,6 +57,7 @@ func c07Case(c *Ctx, id, stack string, items []string) {
 		c.Count("res." + strings.SplitN(out, ":", 2)[0])
 		if out == "panic" {
 			c.Oracle("FAIL %s panic:%s step %d panicked: %s", id, opName(it), i, it)
+			failed = true
 			break
 		}
 		if failed || before == "" {
